@@ -4,6 +4,7 @@
   the client model, see `C11.completion_iff_equal` below once `ImapVerif.Client` is imported.
 -/
 import ImapVerif.Proofs.Tags
+import ImapVerif.Proofs.ClientInv
 
 open Bytes Builders
 
@@ -34,5 +35,46 @@ theorem tag_period (k : Nat) : tagOf (k + 10000) = tagOf k := by
 example : tagOf 1 = b!"A0001" := by decide
 example : tagOf 10000 = b!"A0000" := by decide
 example : tagOf 12345 = b!"A2345" := by decide
+
+end C11
+
+/-! ### Part 2: exact matching by the response stream -/
+
+namespace C11
+
+open Client ClientInv
+
+/-- the k-th command of a connection (k = 1, 2, …) gets the tag `tagOf k` -/
+theorem call_tag (c : Conn) (args : Bytes) :
+    (c.call args).2.tag = tagOf (c.issued + 1) ∧ (c.call args).1.issued = c.issued + 1 := ⟨rfl, rfl⟩
+
+/-- polling never changes the tag counter or the stream's own tag -/
+theorem poll_keeps_tags (s : RStream) (c : Conn) (rs : List REv) (ws : List WEv) :
+    (Stream.pollNext s c rs ws).c.issued = c.issued ∧ (Stream.pollNext s c rs ws).s.tag = s.tag :=
+  ⟨(pollNext_facts s c rs ws).2.2.1, (pollNext_facts s c rs ws).2.2.2.1⟩
+
+/-- a command is treated as complete only by a tagged response whose tag is byte-for-byte its own -/
+theorem completion_iff_equal (s : RStream) (c : Conn) (rs : List REv) (ws : List WEv) (h : s.st ≠ .done) :
+    (Stream.pollNext s c rs ws).s.st = .done ↔
+      ∃ f, (Stream.pollNext s c rs ws).res = .item (.frame f) ∧ requestId f.value = some s.tag :=
+  (pollNext_facts s c rs ws).2.2.2.2.2.2.2.1 h
+
+/-- completions carrying any other tag - stale, differing in case, a prefix or an extension of the
+    right one - and untagged responses are handed through as ordinary items: the stream stays open -/
+theorem lookalike_passed_through (s : RStream) (c : Conn) (rs : List REv) (ws : List WEv) (h : s.st ≠ .done)
+    (f : Frame) (hres : (Stream.pollNext s c rs ws).res = .item (.frame f))
+    (hne : requestId f.value ≠ some s.tag) : (Stream.pollNext s c rs ws).s.st ≠ .done := by
+  intro hd
+  obtain ⟨f', hf', hq⟩ := (completion_iff_equal s c rs ws h).mp hd
+  rw [hres] at hf'
+  cases hf'
+  exact hne hq
+
+/-- `requestId` is the tag of a tagged response and nothing else; equality is equality of byte strings -/
+theorem requestId_spec (v : Response) (t : Bytes) :
+    requestId v = some t ↔ ∃ st code info, v = .done t st code info := by
+  cases v <;> simp [requestId]
+
+example : requestId (.done (b!"a0001") .ok none none) ≠ some (b!"A0001") := by decide
 
 end C11
